@@ -454,7 +454,7 @@ mod inner {
                                     ZchIoMappingType::NoErase => {
                                         const ERR: &str = "expects a single key or output chord.";
                                         if output_list.len() != 2 {
-                                            anyhow_expr!(&output_list[1], "{NO_ERASE} {ERR}");
+                                            bail_expr!(&mapping_pair[1], "{NO_ERASE} {ERR}");
                                         }
                                         let output =
                                             output_list[1].atom(s.vars()).ok_or_else(|| {
@@ -468,7 +468,7 @@ mod inner {
                                     }
                                     ZchIoMappingType::SingleOutput => {
                                         if output_list.len() < 2 {
-                                            anyhow_expr!(&output_list[1], "{SINGLE_OUTPUT_MULTI_KEY} expects one or more keys or output chords.");
+                                            bail_expr!(&mapping_pair[1], "{SINGLE_OUTPUT_MULTI_KEY} expects one or more keys or output chords.");
                                         }
                                         let all_params_except_last =
                                             &output_list[1..output_list.len() - 1];
